@@ -7,7 +7,7 @@ From GMS Require Import Store.C17Txn.
 Inductive crow := KV (k v : Z).
 Inductive cq :=
 | QRead (t : N) | QIns (t : N) (kvs : list crow) | QUpdAll (t : N) (d : Z) | QUpdKey (t : N) (k v : Z)
-| QDelKey (t : N) (k : Z) | QDelGe (t : N) (k : Z) | QBegin | QCommit | QRollback | QSetAC (b : bool) | QBad.
+| QDelKey (t : N) (k : Z) | QDelGe (t : N) (k : Z) | QDelAll (t : N) | QTrunc (t : N) | QBegin | QCommit | QRollback | QSetAC (b : bool) | QBad.
 Inductive cr := OOk | OErr | ORows (l : list crow).
 Inductive ev := Ev (s : N) (q : cq) (r : cr).
 (* initial contents of tables 0 and 1, then the history: session, statement, observed result, in execution order *)
@@ -22,6 +22,8 @@ Definition stmt_of_cq (q : cq) : stmt cwop :=
   | QUpdKey t k v => Write t (UpdKey k v)
   | QDelKey t k => Write t (DelKey k)
   | QDelGe t k => Write t (DelGe k)
+  | QDelAll t => WriteAll t DelAll
+  | QTrunc t => WriteIC t DelAll
   | QBegin => Begin
   | QCommit => Commit
   | QRollback => Rollback
